@@ -56,14 +56,14 @@ def bounds(tier):
     return {
         "sched": {
             "max_epochs_after_initial": 2 if q else 3,
-            "durations": {"len1": [1, 2, 3, 4, 6], "len2": [1, 2, 3] if q else [1, 2, 3, 4, 6], "len3": None if q else [1, 2, 3]},
+            "durations": {"len1": [1, 2, 3, 4, 6], "len2": [1, 2, 3] if q else [1, 2, 3, 4, 6], "len3": None if q else [1, 3]},
             "thinning": [1, 2, 3],
             "chunk": "every divisor of gcd(durations) via the Engine constructor; EngineBuilder's own choice additionally (thinning 1)",
         },
         "kern": {"kernels": [1, 2], "style": ["mixin", "plain"], "needs_history": [False, True], "chains": [1, 2, 3],
-                 "type_sequences": "all of length <= 2"},
-        "inter": {"epochs_incl_initial": 3 if q else 4, "prefix": "0..n (constructor), 2..n (builder)",
-                  "ops": ["append_epoch", "sample_next_epoch", "sample_all_epochs"]},
+                 "schedules": "4 fixed schedules covering every epoch type (one of length 4)" + ("" if q else " + every type sequence of length <= 2")},
+        "inter": {"epochs_incl_initial": 3 if q else 4, "prefix": "0..n (constructor), 2..n (builder: all-at-once and one-at-a-time histories only)",
+                  "ops": ["append_epoch", "sample_next_epoch", "sample_all_epochs (with exactly one pending epoch it is the same call sequence as sample_next_epoch; that case is enumerated " + ("in the thorough tier)" if q else "for <= 3 epochs)")]},
     }
 
 
@@ -92,7 +92,7 @@ def sched_cases(tier, seed):
     """(cfg, [(prefix, path)]) for the schedule x chunk product."""
     q = tier == "quick"
     plan = [(0, [()]), (1, None), (2, None)] + ([] if q else [(3, None)])
-    dsets = {1: [1, 2, 3, 4, 6], 2: [1, 2, 3] if q else [1, 2, 3, 4, 6], 3: [1, 2, 3]}
+    dsets = {1: [1, 2, 3, 4, 6], 2: [1, 2, 3] if q else [1, 2, 3, 4, 6], 3: [1, 3]}
     cases = []
     for n, _ in plan:
         for types in type_seqs(n):
@@ -122,20 +122,29 @@ def kernel_configs():
     return one + two
 
 
+KERN_SCHEDULES = [
+    # (types, durations, thinnings): together every epoch type, none / one / two posterior epochs
+    ([], [], []),
+    (["FAST_ADAPTATION", "SLOW_ADAPTATION", "BURNIN", "POSTERIOR"], [2, 3, 1, 2], [2, 1, 1, 1]),
+    (["POSTERIOR", "POSTERIOR"], [3, 2], [3, 1]),
+    (["SLOW_ADAPTATION", "BURNIN"], [2, 2], [1, 2]),
+]
+
+
 def kern_cases(tier, seed):
+    """every kernel-sequence configuration x KERN_SCHEDULES (thorough: x every type sequence <= 2) x chains"""
     cases = []
-    seqs = [[]] + type_seqs(1) + type_seqs(2)
-    for i, kc in enumerate(kernel_configs()):
-        for types in seqs:
-            ds = [2, 3][: len(types)]
+    scheds = list(KERN_SCHEDULES)
+    if tier != "quick":
+        for types in type_seqs(1) + type_seqs(2):
             ths = [2 if t != "POSTERIOR" else 1 for t in types]
-            if len(types) == 2:
-                ths[1] = 1
+            scheds.append((types, [2, 3][: len(types)], ths[:1] + [1] * (len(types) - 1)))
+    for i, kc in enumerate(kernel_configs()):
+        for j, (types, ds, ths) in enumerate(scheds):
             sched = [INIT] + [[t, d, k] for t, d, k in zip(types, ds, ths)]
-            assert ref.valid_schedule(sched)
-            chain_opts = [2] if tier == "quick" and i not in (1, 9) else [1, 2, 3]
-            for chains in chain_opts:
-                via = "builder" if (i + len(types) + chains) % 2 == 0 and types else "ctor"
+            assert ref.valid_schedule(sched), sched
+            for chains in ([1, 2, 3] if j == 1 or tier != "quick" else [2]):
+                via = "builder" if (i + j + chains) % 2 == 0 and types else "ctor"
                 cfg = {"via": via, "schedule": sched, "prefix": len(sched), "chunk": 1, "chains": chains,
                        "kernels": kc, "shapes": SHAPES, "tracked": None, "included": [], "excluded": [], "seed": seed}
                 cases.append(("kern", cfg, [(len(sched), "s")]))
@@ -160,8 +169,11 @@ def inter_cases(tier, seed):
             for via in ("ctor", "builder"):
                 hist = []
                 for p in range(0 if via == "ctor" else 2, N + 1):
-                    for path in el.paths(N, p):
+                    for path in el.paths(N, p, min_pending_for_all=2 if tier == "quick" or N == 4 else 1):
                         hist.append((p, path))
+                if via == "builder":
+                    # the builder route is covered by "sched-builder"/"kern"; here only the extremes
+                    hist = [h for h in hist if h[1] in ("s", "n" * N, "a" * (N - h[0]) + "n" * N)]
                 if not hist:
                     continue
                 cfg = {"via": via, "schedule": sched, "chunk": 2, "chains": 2, "kernels": K_DEFAULT,
@@ -299,6 +311,15 @@ def check_case(res, kind, cfg, histories):
                 res.outcome("history-len", r["hist_len"])
         res.outcome("end_warmup-calls", sum(1 for r in rows0 if r["event"] == 7))
         res.outcome("ops", "".join(sorted(set(path))), "via", cfg["via"])
+        # measured counters for the evidence file (summed over units by the runner)
+        ex = res.extra
+        for r in rows0:
+            ex["calls_" + ref.EV_NAMES[r["event"]]] = ex.get("calls_" + ref.EV_NAMES[r["event"]], 0) + 1
+        n_ew = sum(1 for r in rows0 if r["event"] == 7)
+        for name in (f"runs_with_{n_ew}_end_warmup_calls", f"runs_via_{cfg['via']}", f"runs_kind_{kind}",
+                     "runs_with_append" if "a" in path else "runs_without_append",
+                     "runs_history_checked" if any(r["event"] in (5, 6, 9) and sims[0]["events"][0][i]["hist_len"] is not None for i, r in enumerate(rows0) if i < len(sims[0]["events"][0])) else "runs_no_history_check"):
+            ex[name] = ex.get(name, 0) + 1
         res.note([cfg["via"], prefix, path, obs])
         res.sample({"schedule": sched, "via": cfg["via"], "prefix": prefix, "history": path,
                     "chunk": getattr(lab.engine, "_jitted_sample_duration", None),
